@@ -34,6 +34,11 @@ munge(other source) / pickle / deepcopy of the same object (HTML, guarded HTML, 
 of a render: the render equals a new template from the source and defaults before or after the
 operation, never anything in between; afterwards the object renders like a new one.  Left out (known finding
 C17-getstate-while-first-render): pickle / deepcopy stopped part-way while the other thread's FIRST render compiles the template.
+(f) templates side by side (encoding_check): 2..4 templates alive at once, every kind (HTML, String, HTMLFile, File) x encoding
+argument (none / several codecs and spellings) x defaults, with EQUAL or different sources, one history over all of them of render /
+pickle / deepcopy / cook / munge; namespaces hold text, numbers and byte strings in several codecs inserted plain / html-quoted /
+inside in, with, let, try, if-else; expected value from a plain-Python reference of the piecing-together rule (text + bytes -> bytes
+decoded with the encoding the template was constructed with, Latin-1 for templates without one), plus a template constructed now.
 Correspondence: the Lean state machine (op "tmpl") vs the real object after every operation (the calling-convention histories
 included: the convention is part of the model's opaque input): raw, globals, _vars, presence
 of compiled data; the model's (program, defaults, variables, inputs) of each call determine the same output.
@@ -1357,6 +1362,266 @@ def file_history_check(res, r, n, maxlen):
         os.rmdir(d)
 
 
+# ---------------------------------------------------------------------------------------------------------------------------
+# (f) several templates in one process: every template kind x encoding x equal / different sources, bytes in the namespace
+
+ENC_KINDS = ['HTML', 'String', 'HTMLFile', 'File']
+ENC_ENCODINGS = [None, 'utf-8', 'latin-1', 'UTF-8', 'cp1252', 'ascii', 'utf-16-le']
+ENC_VALUES = ['plain', 'a<b&c', 'h\xe9llo', 'Gr\xfc\xdfe <b>', '', 7, 2.5, b'ascii', b'x<y&z', b'',
+              'h\xe9llo'.encode('utf-8'), 'Gr\xfc\xdfe <b>'.encode('utf-8'), 'h\xe9 & \xfc'.encode('latin-1'),
+              '€5'.encode('utf-8'), '€5'.encode('cp1252'), 'ab'.encode('utf-16-le')]
+ENC_BYTES = [v for v in ENC_VALUES if isinstance(v, bytes) and v]
+ENC_TEXTS = ['a ', ';', ' - ', '|', '[', ']', '.\n']
+ENC_SCALARS = ['x', 'y', 'z']
+ENC_SEQS = ['seq1', 'seq2']
+
+
+def enc_gen_parts(r, depth, in_in, string_syntax, n=None):
+    """a template as a structure: text, plain and html-quoted insertions (both spellings), and the blocks whose result is put
+    together from pieces (in, with, let, try, if / else)"""
+    parts = []
+    for _ in range(n if n is not None else r.randint(1, 4)):
+        c = r.random()
+        names = ENC_SCALARS + (['sequence-item'] * 3 if in_in else [])
+        if c < 0.2:
+            parts.append(('t', r.choice(ENC_TEXTS)))
+        elif c < 0.4 or (depth <= 0 and c < 0.7):
+            parts.append(('v', r.choice(names)))
+        elif c < 0.55 or depth <= 0:
+            parts.append(('q', r.choice(names), 1 if string_syntax else r.randrange(2)))
+        else:
+            kinds = ['in', 'in', 'with', 'let', 'if'] + ([] if string_syntax else ['try', 'ifelse'])
+            k = r.choice(kinds)
+            if k == 'in':
+                parts.append(('in', r.choice(ENC_SEQS), enc_gen_parts(r, depth - 1, True, string_syntax)))
+            elif k == 'let':
+                parts.append(('let', r.choice(ENC_SCALARS), r.choice(ENC_SCALARS), enc_gen_parts(r, depth - 1, in_in, string_syntax)))
+            elif k == 'ifelse':
+                parts.append(('if', enc_gen_parts(r, depth - 1, in_in, string_syntax), enc_gen_parts(r, depth - 1, in_in, string_syntax)))
+            elif k == 'if':
+                parts.append(('if', enc_gen_parts(r, depth - 1, in_in, string_syntax), None))
+            else:
+                parts.append((k, enc_gen_parts(r, depth - 1, in_in, string_syntax)))
+    return parts
+
+
+def enc_src(parts, string_syntax):
+    out = []
+    for p in parts:
+        k = p[0]
+        sub = lambda ps: enc_src(ps, string_syntax)
+        if string_syntax:
+            if k == 't':
+                out.append(p[1])
+            elif k == 'v':
+                out.append('%%(%s)s' % p[1])
+            elif k == 'q':
+                out.append('%%(%s html_quote)s' % p[1])
+            elif k == 'in':
+                out.append('%%(in %s)[%s%%(in %s)]' % (p[1], sub(p[2]), p[1]))
+            elif k == 'with':
+                out.append('%%(with wd mapping)[%s%%(with wd)]' % sub(p[1]))
+            elif k == 'let':
+                out.append('%%(let %s=%s)[%s%%(let)]' % (p[1], p[2], sub(p[3])))
+            elif k == 'if':
+                out.append('%%(if c)[%s%%(if c)]' % sub(p[1]))
+        else:
+            if k == 't':
+                out.append(p[1])
+            elif k == 'v':
+                out.append('<dtml-var %s>' % p[1])
+            elif k == 'q':
+                out.append('&dtml-%s;' % p[1] if p[2] == 0 else '<dtml-var %s html_quote>' % p[1])
+            elif k == 'in':
+                out.append('<dtml-in %s>%s</dtml-in>' % (p[1], sub(p[2])))
+            elif k == 'with':
+                out.append('<dtml-with wd mapping>%s</dtml-with>' % sub(p[1]))
+            elif k == 'let':
+                out.append('<dtml-let %s=%s>%s</dtml-let>' % (p[1], p[2], sub(p[3])))
+            elif k == 'try':
+                out.append('<dtml-try>%s<dtml-except>E</dtml-try>' % sub(p[1]))
+            elif k == 'if':
+                out.append('<dtml-if c>%s%s</dtml-if>' % (sub(p[1]), '' if p[2] is None else '<dtml-else>' + sub(p[2])))
+    return ''.join(out)
+
+
+def enc_quote(s):
+    return s.replace('&', '&amp;').replace('<', '&lt;').replace('>', '&gt;')
+
+
+def enc_put_together(pieces, enc, always_text=False):
+    """the documented rule (join_unicode): text pieces give text, byte strings give ... and a mix gives text with the byte
+    strings taken as encoded in the template's encoding (Latin-1 if it has none); a single piece is the result itself"""
+    pieces = [p for p in pieces if p]
+    if not pieces:
+        return ''
+    if len(pieces) == 1 and not always_text:
+        return pieces[0]
+    if all(isinstance(p, str) for p in pieces):
+        return ''.join(pieces)
+    return ''.join(p if isinstance(p, str) else p.decode(enc or 'latin-1') for p in pieces)
+
+
+def enc_pieces(parts, stack, enc):
+    out = []
+    for p in parts:
+        k = p[0]
+        if k == 't':
+            out.append(p[1])
+        elif k in 'vq':
+            v = ns_lookup(stack, p[1])
+            if not isinstance(v, (str, bytes)):
+                v = str(v)
+            if k == 'q':
+                v = enc_quote(v if isinstance(v, str) else v.decode(enc or 'latin-1'))
+            out.append(v)
+        elif k == 'if':
+            branch = p[1] if ns_lookup(stack, 'c') else p[2]
+            if branch:
+                out.extend(enc_pieces(branch, stack, enc))
+        elif k == 'in':
+            seq = ns_lookup(stack, p[1])
+            each = [enc_put_together(enc_pieces(p[2], stack + [{'sequence-item': item}], enc), enc) for item in seq]
+            out.append(enc_put_together(each, enc, always_text=True) if seq else '')
+        elif k == 'with':
+            out.append(enc_put_together(enc_pieces(p[1], stack + [ns_lookup(stack, 'wd')], enc), enc))
+        elif k == 'let':
+            out.append(enc_put_together(enc_pieces(p[3], stack + [{p[1]: ns_lookup(stack, p[2])}], enc), enc))
+        elif k == 'try':
+            try:
+                out.append(enc_put_together(enc_pieces(p[1], stack, enc), enc))
+            except UnicodeDecodeError:
+                out.append('E')
+    return out
+
+
+def enc_outcome(f):
+    try:
+        v = f()
+    except Exception as e:
+        return ['raised', type(e).__name__]
+    return ['ok', type(v).__name__, v]
+
+
+def enc_gen_ns(r):
+    val = lambda: r.choice(ENC_BYTES) if r.random() < 0.5 else r.choice(ENC_VALUES)
+    ns = {n: val() for n in ENC_SCALARS}
+    for s in ENC_SEQS:
+        ns[s] = [val() for _ in range(r.choice((0, 1, 1, 2, 2, 3)))]
+    ns['wd'] = {r.choice(ENC_SCALARS): val()} if r.random() < 0.6 else {}
+    ns['c'] = r.random() < 0.6
+    return ns
+
+
+def encoding_check(res, r, n, maxlen=10):
+    """cases of 2..4 templates that live in one process at the same time: every kind (HTML, String, HTMLFile, File) x encoding
+    argument (none / several codecs / spellings; file-based templates take none) x defaults, sources taken from a pool of two
+    per case so that templates with EQUAL source and different encoding / kind / defaults meet; one history over all of them of
+    render (namespaces with text, numbers and byte strings in several codecs, inserted plain / html-quoted / inside in, with, let,
+    try, if-else) / pickle round trip / deepcopy / cook / munge to the other source.  Every render is compared with
+    (1) a plain-Python reference of the documented piecing-together rule using the encoding the template was constructed with,
+    (2) a template constructed now from the same source, defaults and encoding, and (3) itself, repeated"""
+    import DocumentTemplate
+    d = tempfile.mkdtemp(prefix='c17e_')
+    try:
+        for case in range(n):
+            res.evaluations += 1
+            pool = {}
+            for ss in (False, True):
+                a = enc_gen_parts(r, 2, False, ss)
+                b = a[:-1] + enc_gen_parts(r, 2, False, ss, n=1) if r.random() < 0.3 else enc_gen_parts(r, 2, False, ss)
+                pool[ss] = [a, b]
+            tmpls, spec = [], []
+            mixed = r.random() < 0.5
+            kind0 = r.choice(ENC_KINDS)
+            for i in range(r.randint(2, 4)):
+                kind = r.choice(ENC_KINDS) if mixed else kind0
+                ss = kind in ('String', 'File')
+                idx = r.randrange(2) if r.random() < 0.3 else 0
+                enc = None if 'File' in kind else r.choice(ENC_ENCODINGS)
+                dm = {r.choice(ENC_SCALARS): r.choice(ENC_VALUES)} if r.random() < 0.3 else {}
+                dk = {r.choice(ENC_SCALARS): r.choice(ENC_VALUES)} if r.random() < 0.3 else {}
+                path = None
+                if 'File' in kind:
+                    path = os.path.join(d, 'e%d_%d.dtml' % (case, i))
+                    write_file(path, enc_src(pool[ss][idx], ss))
+                s = {'kind': kind, 'string syntax': ss, 'source': idx, 'encoding': enc, 'defaults': [dm, dk], 'path': path}
+                spec.append(s)
+                tmpls.append(enc_build(DocumentTemplate, s, pool))
+            ops, what = [], None
+            for step in range(r.randint(4, maxlen)):
+                i = r.randrange(len(tmpls))
+                s = spec[i]
+                c = r.random()
+                k = 'render' if c < 0.55 or step < 2 else 'pickle' if c < 0.7 else 'deepcopy' if c < 0.8 else 'cook' if c < 0.9 else 'munge'
+                if k == 'munge' and s['path']:
+                    k = 'cook'
+                res.count('templates side by side: op=' + k)
+                if k == 'render':
+                    ns = enc_gen_ns(r)
+                    ops.append([i, k, ns])
+                    before = copy.deepcopy(ns)
+                    t = tmpls[i]
+                    got = enc_outcome(lambda: t(None, ns))
+                    again = enc_outcome(lambda: t(None, ns))
+                    parts = pool[s['string syntax']][s['source']]
+                    stack = [s['defaults'][0], s['defaults'][1], ns]
+                    exp = enc_outcome(lambda: enc_put_together(enc_pieces(parts, stack, s['encoding'] or (None if s['path'] else 'UTF-8')),
+                                                                 s['encoding'] or (None if s['path'] else 'UTF-8')))
+                    f = enc_build(DocumentTemplate, s, pool)
+                    fresh = enc_outcome(lambda: f(None, ns))
+                    res.count('templates side by side: kind=%s' % s['kind'])
+                    res.count('templates side by side: result=%s' % ' '.join(exp[:2]))
+                    if got != exp:
+                        what = 'op %d: template %d gives %r; by the documented rule with its encoding: %r' % (step, i, got, exp)
+                    elif fresh != got:
+                        what = 'op %d: template %d gives %r, a template constructed now from the same source / defaults / encoding gives %r' % (step, i, got, fresh)
+                    elif again != got:
+                        what = 'op %d: template %d gives %r, and %r when the call is repeated' % (step, i, got, again)
+                    elif ns != before or [type(x) for x in ns['seq1'] + ns['seq2']] != [type(x) for x in before['seq1'] + before['seq2']]:
+                        what = 'op %d: the namespace was modified: %r' % (step, ns)
+                    elif (tmpls[i].globals, tmpls[i]._vars) != (dict(s['defaults'][0], **s['defaults'][1]), {}):
+                        what = 'op %d: the defaults of template %d were modified' % (step, i)
+                else:
+                    ops.append([i, k])
+                    if k == 'pickle':
+                        data = pickle.dumps(tmpls[i])
+                        tmpls[i] = pickle.loads(data)
+                        text = enc_src(pool[s['string syntax']][s['source']], s['string syntax'])
+                        if s['path'] and len(text) > 12 and text.encode() in data:
+                            what = 'op %d: the pickle of the file-based template %d holds the content of the file' % (step, i)
+                        elif s['path'] and s['path'].encode() not in data:
+                            what = 'op %d: the pickle of the file-based template %d does not hold the file name' % (step, i)
+                    elif k == 'deepcopy':
+                        tmpls[i] = copy.deepcopy(tmpls[i])
+                    elif k == 'cook':
+                        tmpls[i].cook()
+                    else:
+                        s['source'] = 1 - s['source']
+                        tmpls[i].munge(enc_src(pool[s['string syntax']][s['source']], s['string syntax']))
+                if what:
+                    shown = [dict(sp, source=enc_src(pool[sp['string syntax']][sp['source']], sp['string syntax'])) for sp in spec]
+                    res.oracle_fail.append({'case': {'templates (as they are now)': repr(shown), 'ops [template, op, namespace]': repr(ops)},
+                                            'what': what})
+                    break
+            res.nt(('side by side',) + tuple(sorted((sp['kind'], str(sp['encoding'])) for sp in spec)) + tuple(o[1] for o in ops))
+    finally:
+        for fn in os.listdir(d):
+            os.unlink(os.path.join(d, fn))
+        os.rmdir(d)
+
+
+def enc_build(pkg, s, pool):
+    cls = getattr(pkg, s['kind'])
+    dm, dk = dict(s['defaults'][0]), dict(s['defaults'][1])
+    if s['path']:
+        return cls(s['path'], dm, **dk)
+    text = enc_src(pool[s['string syntax']][s['source']], s['string syntax'])
+    if s['encoding'] is None:
+        return cls(text, dm, **dk)
+    return cls(text, dm, encoding=s['encoding'], **dk)
+
+
 def show_case(init, ops, cls_idx):
     return {'class': CLASS_NAMES[cls_idx], 'init': [SOURCES[init[0]], init[1], init[2]],
             'ops': show_ops(ops),
@@ -1364,7 +1629,7 @@ def show_case(init, ops, cls_idx):
                       "'-name' (left out of the base mapping); code = index into props.c17.VALUES[name], or the integer itself"}
 
 
-def check(res, r, n, maxlen, have_driver, streaks=0, idioms=0, calls=0, files=0, overlaps=0, tier='quick'):
+def check(res, r, n, maxlen, have_driver, streaks=0, idioms=0, calls=0, files=0, overlaps=0, tier='quick', encs=0):
     hist = []
     for j in range(n):
         init = [r.randrange(len(SOURCES)), gen_dict(r), gen_dict(r)]
@@ -1424,6 +1689,8 @@ def check(res, r, n, maxlen, have_driver, streaks=0, idioms=0, calls=0, files=0,
         file_history_check(res, common.rng('C17-files'), files, maxlen)
     if overlaps:
         overlap_check(res, common.rng('C17-overlap'), overlaps, tier)
+    if encs:
+        encoding_check(res, common.rng('C17-encodings'), encs)
     file_template_check(res)
 
 
@@ -1446,13 +1713,15 @@ def run(res, tier, have_driver):
                 'namespace in every call form against a name-lookup reference; file-based histories incl. rewriting the file against '
                 'a string template of the content at the last compilation; renders overlapping cook / munge / pickle / deepcopy of '
                 'the same object in another thread at sampled lines (one thread stopped after k lines): result = new template before or after the '
-                'operation; non-trivial = distinct (kind, class, operation sequence), idiom templates, sub-template programs, '
+                'operation; 2..4 templates of every kind x encoding x equal or different sources side by side over one history with '
+                'byte strings of several codecs in the namespace, against a plain-Python reference of the text/bytes joining rule; '
+                'non-trivial = distinct (kind, class, operation sequence), idiom templates, sub-template programs, '
                 '(source, operation) pairs of overlapping cases'
                 % len(SOURCES))
     if tier == 'quick':
-        check(res, r, 700, 8, have_driver, streaks=8, idioms=300, calls=200, files=150, overlaps=60)
+        check(res, r, 700, 8, have_driver, streaks=8, idioms=300, calls=200, files=150, overlaps=60, encs=500)
     else:
-        check(res, r, 8000, 14, have_driver, streaks=60, idioms=3000, calls=3000, files=3000, overlaps=150, tier='thorough')
+        check(res, r, 8000, 14, have_driver, streaks=60, idioms=3000, calls=3000, files=3000, overlaps=150, tier='thorough', encs=8000)
     res.assumptions += ['compiling and rendering a compiled program are parameters of the state-machine model (Engine.parse / '
                         'Engine.exec); that rendering a compiled program is a function of (program, defaults, variables, inputs) '
                         'only — i.e. that compiled tags keep no per-render state that a later render reads — is what the oracle '
@@ -1467,7 +1736,7 @@ def run(res, tier, have_driver):
 def search_more(res, tier):
     r = common.rng('C17-more')
     res2 = common.Result('C17')
-    check(res2, r, 2500, 12, False, streaks=20, idioms=1000, calls=800, files=600, overlaps=40)
+    check(res2, r, 2500, 12, False, streaks=20, idioms=1000, calls=800, files=600, overlaps=40, encs=1500)
     return res2.oracle_fail
 
 
